@@ -21,6 +21,7 @@ CLAUSE_PROPS = {
     'NoNewTasksAfterStop': ['C11'], 'StopAck': ['C11'], 'TreeCancelled': ['C11'],
     'AttemptBound': ['C08'], 'StopAtFirstSuccess': ['C08'], 'FinalIffLast': ['C08'], 'DelayRespected': ['C08'],
     'WaitBeforeRespected': ['C08'], 'WaitAfterRespected': ['C08'], 'TimeoutJudged': ['C08'], 'FailOnApplied': ['C08'],
+    'ExpiredFailed': ['C20'], 'NeverExpireFresh': ['C20'], 'NoStuckTaskAtRest': ['C20', 'C01'],
     'RerunRestores': ['C12'], 'SkipApplied': ['C12'], 'RerunReexecutes': ['C12'], 'PartialRerunOnlyFailed': ['C12', 'C07'],
     'ParentMirrorsChild': ['C09'], 'RootAndNamespace': ['C09'],
     'Prescribed': ['C01', 'C02', 'C09', 'C10', 'C12'],
@@ -38,7 +39,7 @@ def _run_job(job):
     try:
         tr = engrun.run_program(job['prog'], scheduler=job.get('scheduler', 'default'), policy=job.get('policy', 'random'),
                                 seed=job.get('seed', 0), ops=job.get('ops'), dups=job.get('dups', 0),
-                                evict=job.get('evict', False), max_steps=job.get('max_steps', 400))
+                                evict=job.get('evict', False), max_steps=job.get('max_steps', 400), c20=job.get('c20'))
         tr['meta']['label'] = job.get('label', '')
         tr['meta']['yaml'] = job['prog'].yaml()
         tr['meta']['ops'] = job.get('ops') or []
@@ -65,7 +66,7 @@ def judge(d, traces, chunk=150):
         with open(tf, 'w') as fh:
             for t in part:
                 fh.write(json.dumps({'prog': t['prog'], 'meta': {'mayPause': t['meta']['mayPause'], 'faulty': t['meta']['faulty'],
-                                              'policies': bool(t['prog']['flags'].get('retry') or t['prog']['flags'].get('policy'))},
+                                              'hbThreshold': int(t['meta'].get('hbThreshold', 0)), 'policies': bool(t['prog']['flags'].get('retry') or t['prog']['flags'].get('policy'))},
                                      'declared': t['declared'], 'steps': t['steps']}) + '\n')
         mod = os.path.join(d, 'MC_EngineObsTrace_%d.tla' % k)
         with open(mod, 'w') as fh:
